@@ -27,6 +27,8 @@ type FuncSpec struct {
 type CmdSpec struct {
 	Name  string
 	Fails bool
+	// Pending: the handler returns a channel on which nothing is ever sent.
+	Pending bool
 }
 
 // HostSpec is a host configuration from which both the model host and the real registrations
@@ -66,6 +68,13 @@ func (hs *HostSpec) Model() *Host {
 	}
 	for _, c := range hs.Cmds {
 		c := c
+		if c.Pending {
+			if h.Pending == nil {
+				h.Pending = map[string]bool{}
+			}
+			h.Pending[c.Name] = true
+			continue
+		}
 		h.Cmds[c.Name] = func(m *Machine, args []Value) bool {
 			m.Log = append(m.Log, "cmd:"+c.Name+"("+ArgsString(args)+")")
 			return c.Fails
@@ -111,9 +120,11 @@ func (hs *HostSpec) Install(dr *ysgo.DialogueRunner, log *[]string) {
 		dr.AddCommand(c.Name, func(args []*variable.Value) <-chan error {
 			*log = append(*log, "cmd:"+c.Name+"("+ArgsString(RealArgs(args))+")")
 			ch := make(chan error, 1)
-			if c.Fails {
+			switch {
+			case c.Pending:
+			case c.Fails:
 				ch <- errHost
-			} else {
+			default:
 				ch <- nil
 			}
 			return ch
